@@ -597,6 +597,80 @@ func runPrefixSim(t *Trace, seed int64, count, shard, shards int) error {
 	return nil
 }
 
+// long-running instances: state that only goes wrong after many operations (counters that wrap at 2^8 / 2^16,
+// structures that change shape after growth).  One plugin instance per scenario:
+//   gaps   client A holds a prefix and asks again without a hint after a neighbour has renewed exactly g times,
+//          for every g of a sweep (1..16 and 250..262; level 2: 1..300; level 3: 65534..65538)
+//   many   several hundred distinct clients on one pool, each asking twice
+func runPrefixLong(t *Trace, seed int64, level, shard, shards int) error {
+	var sweeps [][]int
+	rng := func(a, b int) []int {
+		var x []int
+		for i := a; i <= b; i++ {
+			x = append(x, i)
+		}
+		return x
+	}
+	switch level {
+	case 1:
+		sweeps = [][]int{append(rng(1, 16), rng(250, 262)...)}
+	case 2:
+		sweeps = [][]int{rng(1, 100), rng(101, 200), rng(201, 300), rng(500, 520)}
+	default:
+		sweeps = [][]int{{65534}, {65535}, {65536}, {65537}}
+	}
+	k := 0
+	for _, sw := range sweeps {
+		for _, askKind := range []string{"none", "nil", "zero"} {
+			if level >= 3 && askKind != "none" {
+				continue
+			}
+			k++
+			if k%shards != shard {
+				continue
+			}
+			r := rand.New(rand.NewSource(seed*31 + int64(k)))
+			s, err := newPfxScn(t, mkPfxGeom("2001:db8:0:10::/60", 64), r)
+			if err != nil {
+				return err
+			}
+			ask := []pfxIA{{}}
+			if askKind != "none" {
+				ask = []pfxIA{{[]string{askKind}}}
+			}
+			s.send(0, []pfxIA{{}}, 0)
+			s.send(1, []pfxIA{{}}, 0)
+			for _, g := range sw {
+				for i := 0; i < g && !s.dead; i++ {
+					s.send(1, []pfxIA{{[]string{"own0"}}}, 0)
+				}
+				s.send(0, ask, 0)
+			}
+		}
+	}
+	if level <= 2 {
+		k++
+		if k%shards == shard {
+			r := rand.New(rand.NewSource(seed*31 + int64(k)))
+			s, err := newPfxScn(t, mkPfxGeom("2001:db8:0:fe00::/55", 64), r) // 512 blocks
+			if err != nil {
+				return err
+			}
+			n := 300
+			for c := 0; c < n; c++ {
+				s.send(c, []pfxIA{{}}, 0)
+			}
+			for c := 0; c < n; c++ {
+				s.send(c, []pfxIA{{}}, c%3)
+			}
+			for c := n - 1; c >= 0; c -= 7 {
+				s.send(c, []pfxIA{{[]string{"own0"}}}, 0)
+			}
+		}
+	}
+	return nil
+}
+
 // concurrent: 16 goroutines, several clients each sending hint-less / renewing messages; the
 // observation point inside the critical section orders the IA_PDs; each message is recorded when
 // its handler returns (cmsg). Used by C16 (serial equivalence is judged by PrefixTrace's
@@ -710,6 +784,8 @@ func runPrefix(args []string) error {
 		return runPrefixSim(t, *seed, *count, *shard, *shards)
 	case "conc":
 		return runPrefixConc(t, *seed, *rounds)
+	case "long":
+		return runPrefixLong(t, *seed, *level, *shard, *shards)
 	}
 	return fmt.Errorf("unknown mode %s", *mode)
 }
